@@ -310,6 +310,36 @@ def _epilogue(f):
     return out
 
 
+def _rw(st):
+    w = {n.id for n in ast.walk(st) if isinstance(n, ast.Name) and isinstance(n.ctx, (ast.Store, ast.Del))}
+    for n in ast.walk(st):  # a store into x[...] / x.a writes x
+        if isinstance(n, (ast.Subscript, ast.Attribute)) and isinstance(n.ctx, ast.Store):
+            b = n
+            while isinstance(b, (ast.Subscript, ast.Attribute)):
+                b = b.value
+            if isinstance(b, ast.Name):
+                w.add(b.id)
+    rd = {n.id for n in ast.walk(st) if isinstance(n, ast.Name) and isinstance(n.ctx, ast.Load)}
+    return rd, w
+
+
+def _reordered_only(ref, got):
+    """the two statement lists hold the same statements, and every two statements that touch a common variable (one of them
+    writing it) come in the same order in both: the lists differ by swaps of independent statements only"""
+    rs, gs = [s for _, s in ref], [s for _, s in got]
+    if sorted(rs) != sorted(gs) or len(set(rs)) != len(rs):
+        return False
+    pos = {s: i for i, s in enumerate(gs)}
+    eff = [_rw(st) for st, _ in ref]
+    for i in range(len(ref)):
+        for j in range(i + 1, len(ref)):
+            (ri, wi), (rj, wj) = eff[i], eff[j]
+            if (wi & (rj | wj)) or (wj & ri):
+                if pos[rs[i]] > pos[rs[j]]:
+                    return False
+    return True
+
+
 def rule_r3(p, res):
     r = res.rule("C12.R3", "the four block-sparse-row epilogues are identical")
     names = [n for n in EDGE_ROUTINES + DIAG_ROUTINES if "sparse" in n]
@@ -326,7 +356,7 @@ def rule_r3(p, res):
     for name in names[1:]:
         f, e = eps[name]
         got = [s for _, s in e]
-        if got == ref:
+        if got == ref or _reordered_only(eps[ref_name][1], e):
             r.ok({"routine": name, "equal_to": ref_name, "statements": len(got)})
             continue
         # name the differing statement; majority decides which copy deviates
